@@ -312,6 +312,11 @@ func CorsCorpus(dir, tier string) []CorpusEntry {
 			}
 		}
 	}
+	// CORS on a tree where a literal segment and a variable one are siblings and
+	// both go deeper (the preflight answer of the literal branch passes through
+	// the parent's "literal first, then the variable" code)
+	sib := map[string][]string{"/shops/mine/pets": {"get"}, "/shops/{shop}/pets": {"get", "post"}, "/shops/{shop}": {"delete"}, "/shops/mine": {"put"}}
+	out = append(out, CorpusEntry{Name: "cors-siblings", Spec: writeSpec(filepath.Join(dir, "cors-siblings"), "openapi", routeSpec("servers: [{url: /v1}]\n", sib)), Cors: true, Group: "cors-matrix"})
 	return out
 }
 
